@@ -951,8 +951,134 @@ def x_noconj(cfg, hits):
     return out
 
 
+def own_build(kind, S, ops):
+    """Expression constructors taking user-owned vector operands `ops` (space elements)."""
+    import odl
+    from odl.solvers.functional import functional as F
+    sol, sp = odl.solvers, S.space
+    if kind == 'mul-vec':
+        return sol.L2NormSquared(sp) * ops[0]
+    if kind == 'mul-vec-l1':
+        return sol.L1Norm(sp) * ops[0]
+    if kind == 'rvm-direct':
+        return F.FunctionalRightVectorMult(sol.L2NormSquared(sp), ops[0])
+    if kind == 'translated':
+        return sol.L1Norm(sp).translated(ops[0])
+    if kind == 'translation-direct':
+        return F.FunctionalTranslation(sol.L2NormSquared(sp), ops[0])
+    if kind == 'quadform-vec':
+        return sol.QuadraticForm(vector=ops[0], constant=1.0)
+    if kind == 'quadform-op-vec':
+        return sol.QuadraticForm(operator=odl.ScalingOperator(sp, 2.0), vector=ops[0], constant=-0.5)
+    if kind == 'qp0':
+        return F.FunctionalQuadraticPerturb(sol.L1Norm(sp), 0.0, linear_term=ops[0], constant=1.0)
+    if kind == 'qpa':
+        return F.FunctionalQuadraticPerturb(sol.L1Norm(sp), 1.0, linear_term=ops[0])
+    if kind == 'box':
+        return sol.IndicatorBox(sp, ops[1], ops[0])
+    if kind == 'kl':
+        return sol.KullbackLeibler(sp, prior=ops[0])
+    if kind == 'klce':
+        return sol.KullbackLeiblerCrossEntropy(sp, prior=ops[0])
+    if kind == 'breg':
+        return sol.BregmanDistance(sol.L2NormSquared(sp), ops[0], ops[1])
+    if kind == 'sum-lin':
+        return sol.L2NormSquared(sp) + sol.QuadraticForm(vector=ops[0])
+    raise KeyError(kind)
+
+
+OWN_KINDS = ['mul-vec', 'mul-vec-l1', 'rvm-direct', 'translated', 'translation-direct', 'quadform-vec',
+             'quadform-op-vec', 'qp0', 'qpa', 'box', 'kl', 'klce', 'breg', 'sum-lin']
+
+
+def own_numbers(f, derived, pts, S):
+    """Everything the property's oracles look at, for `f` and objects derived from it earlier
+    (`derived` = dict with conj / biconj / prox / conj-prox factories, or None = derive now)."""
+    out = {}
+    g = derived.get('conj') if derived else safe_call(lambda: f.convex_conj)[1]
+    gg = derived.get('biconj') if derived else (safe_call(lambda: g.convex_conj)[1] if g is not None else None)
+    for i, (x, y, s) in enumerate(pts):
+        def put(nm, fn):
+            st, v = safe_call(fn)
+            out['{}{}'.format(nm, i)] = v if st == 'ok' else st.split(':')[1]
+        put('f', lambda: float(f(x)))
+        if g is not None:
+            put('g', lambda: float(g(y)))
+        if gg is not None:
+            put('gg', lambda: float(gg(x)))
+        put('grad', lambda: S.flat(f.gradient(x)))
+        put('prox', lambda: S.flat(f.proximal(s)(x)))
+        if g is not None:
+            put('cprox', lambda: S.flat(g.proximal(1.0 / s)(x / s)))
+            put('ggrad', lambda: float(g(f.gradient(x))))
+    return out
+
+
+def own_oracles(nums, pts, S, tag):
+    """The property's own oracles on a table of numbers of `own_numbers`."""
+    out = []
+    num = lambda v: isinstance(v, float)  # noqa
+    for i, (x, y, s) in enumerate(pts):
+        fx, gy, bx = nums.get('f%d' % i), nums.get('g%d' % i), nums.get('gg%d' % i)
+        xy = float(x.inner(y))
+        if num(fx) and num(gy) and math.isfinite(fx) and math.isfinite(gy):
+            if fx + gy < xy - 1e-9 * max(1.0, abs(fx), abs(gy), abs(xy)):
+                out.append(('fenchel-young-inequality', '{}: f(x)+f*(y) = {!r} < <x,y> = {!r}'.format(tag, fx + gy, xy)))
+        if num(fx) and num(bx) and not close(bx, fx, 1.0, 1e-9, 1e-9):
+            out.append(('biconjugate', '{}: f**(x) = {!r} but f(x) = {!r}'.format(tag, bx, fx)))
+        gr, ggr = nums.get('grad%d' % i), nums.get('ggrad%d' % i)
+        if num(fx) and math.isfinite(fx) and isinstance(gr, list) and num(ggr) and all(math.isfinite(t) for t in gr):
+            xg = float(x.inner(S.elem(gr)))
+            if math.isfinite(ggr) and abs(fx + ggr - xg) > 1e-8 * max(1.0, abs(fx), abs(xg)):
+                out.append(('fenchel-young-equality', '{}: at y = grad f(x): f(x)+f*(y) = {!r} but <x,y> = {!r}'.format(tag, fx + ggr, xg)))
+        p1, p2 = nums.get('prox%d' % i), nums.get('cprox%d' % i)
+        if isinstance(p1, list) and isinstance(p2, list) and all(math.isfinite(t) for t in p1 + p2):
+            resid = float((S.elem(p1) + s * S.elem(p2) - x).norm())
+            if not resid <= 1e-8 * max(1.0, float(x.norm())):
+                out.append(('moreau', '{}: residual {!r} (sigma={})'.format(tag, resid, s)))
+    return out
+
+
+def x_own(cfg, hits):
+    """OWNERSHIP: build an expression from user-owned vectors, derive conjugate / biconjugate
+    (objects kept), then overwrite the user's vectors IN PLACE; the functional and the objects
+    derived from it before must still satisfy every oracle of the property among themselves
+    (either all follow the user's array or none does), and objects derived afterwards too."""
+    S = fc.get_space(cfg['space'])
+    kind = cfg['kind']
+    ops = [S.elem(v) for v in cfg['ops']]
+    pts = [(S.elem(x), S.elem(y), float(s)) for x, y, s in cfg['pts']]
+    out = []
+    st, f = safe_call(own_build, kind, S, ops)
+    if st != 'ok':
+        return [('own-construct', st)]
+    hits.add('own/' + kind)
+    st, g = safe_call(lambda: f.convex_conj)
+    g = g if st == 'ok' else None
+    gg = safe_call(lambda: g.convex_conj)[1] if g is not None else None
+    derived = {'conj': g, 'biconj': gg}
+    before = own_numbers(f, derived, pts, S)
+    out += own_oracles(before, pts, S, 'before the caller touches its vectors')
+    for o, how in zip(ops, cfg['how']):
+        if how == 'scale':
+            o *= 0.25
+        elif how == 'shift':
+            o += 1.5
+        else:
+            o[:] = float('nan')
+    after = own_numbers(f, derived, pts, S)
+    follows = any(str(after.get(k)) != str(before.get(k)) for k in before)
+    hits.add('own/{}/{}'.format('follows-operand' if follows else 'independent', cfg['how'][0]))
+    if cfg['how'][0] != 'nan':
+        out += own_oracles(after, pts, S, 'after the caller modified its vectors in place (objects derived before)')
+        late = own_numbers(f, None, pts, S)
+        out += own_oracles(late, pts, S, 'after the caller modified its vectors in place (objects derived afterwards)')
+    out = [('own[{}] {}'.format(kind, k), w) for k, w in out]
+    return out
+
+
 EXTRA = {'nuclear': x_nuclear, 'simple': x_simple, 'box': x_box, 'sep': x_sep, 'factory': x_factory,
-         'mul': x_mul, 'noconj': x_noconj}
+         'mul': x_mul, 'noconj': x_noconj, 'own': x_own}
 EXTRA_BRANCHES = (
     ['extra/nuclear/exps={:g},{:g}'.format(a, b) for a, b in
      ((1, 2), (1, 1), (1, float('inf')), (2, 2), (float('inf'), float('inf')), (float('inf'), 1))] +
@@ -966,7 +1092,9 @@ EXTRA_BRANCHES = (
      'extra/factory/l2sq-pointwise-sigma', 'extra/factory/l1-pointwise-sigma',
      'extra/factory/quadpert-u-none', 'extra/factory/quadpert-negative',
      'extra/mul/f*0', 'extra/mul/0*f', 'extra/mul/operator',
-     'extra/noconj/simplex', 'extra/noconj/sumconstraint'])
+     'extra/noconj/simplex', 'extra/noconj/sumconstraint'] +
+    ['own/' + k for k in OWN_KINDS] +
+    ['own/independent/scale', 'own/follows-operand/scale', 'own/follows-operand/shift', 'own/follows-operand/nan'])
 
 
 def extra_configs(rng, quick):
@@ -1000,6 +1128,19 @@ def extra_configs(rng, quick):
             cfgs.append(('mul', {'space': S.name, 'recipe': r, 'x': fc.rvec(rng, n),
                                  'y': fc.rvec(rng, n, nonzero=True)}))
         cfgs.append(('noconj', {'space': S.name}))
+    hows = ['scale', 'shift', 'nan']
+    for si, S in enumerate(tens):
+        n = S.size
+        for ki, kind in enumerate(OWN_KINDS):
+            for how in (hows if not quick else [hows[(si + ki) % 3]] + (['scale'] if (si + ki) % 3 else [])):
+                kl = kind in ('kl', 'klce')
+                cfgs.append(('own', {
+                    'space': S.name, 'kind': kind, 'how': [how, how],
+                    'ops': [[rng.choice([1.0, 2.0, 4.0, 0.5]) for _ in range(n)],
+                            [rng.choice([-1.0, -2.0, -0.5]) for _ in range(n)]],
+                    'pts': [[fc.rvec(rng, n, 1, 8, 4) if kl else fc.rvec(rng, n),
+                             fc.rvec(rng, n, -12, 3, 8) if kl else fc.rvec(rng, n, -4, 4, 8),
+                             rng.choice([0.5, 1.0, 2.0])] for _ in range(3)]}))
     for parts in (['l1', 'l2sq'], ['l2', 'hub', 'l1'], ['l2sq'], ['hub', 'l2sq', 'l1', 'l2']):
         cfgs.append(('sep', {'parts': parts, 'x': [fc.rvec(rng, 3) for _ in parts],
                              'y': [fc.rvec(rng, 3) for _ in parts]}))
